@@ -16,10 +16,14 @@
           28 = outside the dense reading, outcome only (C09_sparse_channels): on sparse templates
                get_amplitudes_true raises and _channels returns the first stored channel
           3  = input outside the stated regime (harness bug)
+   Stage 5: get_amplitudes_true is judged against the model with n_wav = the number of stored waveforms
+   (Spec3.full_ai: the reading of the statement, C09_full_guard / C09_spike_amps_full); the loaded
+   n_templates / n_clusters must be that number (else code 1: the guard of the theorems does not hold for
+   the loaded model), and the dataset-side spike ids / amplitudes are the model's input.
    The oracle is the term of Model.v instantiated with exact rationals (the instance the theorems are
    about); observed binary64 values are converted exactly and must lie within 2^-48 relative of it. *)
 From Coq Require Import ZArith QArith Qabs List Bool.
-From PV Require Export Base.Tok Base.TokArith C09.Model C09.Spec C09.Spec2.
+From PV Require Export Base.Tok Base.TokArith C09.Model C09.Spec C09.Spec2 C09.Spec3.
 Import ListNotations.
 Open Scope Z_scope.
 
@@ -154,7 +158,7 @@ Definition mk_di (i : inp) : depth_in := mk_depth_in (i_nspikes i) (i_feat i) (i
 
 Definition regime (i : inp) : bool :=
   let nc := length (i_wmi i) in
-  amp_regime (mk_ai i false) && amp_regime (mk_ai i true) &&
+  amp_regime (full_ai (mk_ai i false)) && amp_regime (full_ai (mk_ai i true)) &&
   pos_finite (i_factor i) && pos_finite (i_rate i) &&
   Nat.eqb (length (i_probes i)) nc && depth_regime (mk_di i) &&
   forallb (fun s => 0 <=? s) (i_st i) && forallb (fun s => 0 <=? s) (i_sc i) &&
@@ -163,13 +167,15 @@ Definition regime (i : inp) : bool :=
 (* ---------- the check ---------- *)
 Definition zl_eq (a b : list Z) : bool := zl_eqb a b.
 
-Definition check_amp (ai : amp_in) (factor : tok) (o : option ampobs) : list Z :=
+Definition check_amp (ai0 : amp_in) (factor : tok) (o : option ampobs) : list Z :=
+  let ai := full_ai ai0 in           (* every stored waveform unwhitened: the statement's reading *)
+  let gn := nwav_full_b ai0 in       (* the loaded loop bound is the number of stored waveforms *)
   match amplitudes_true_Q ai (tok_Q factor), o with
   | Some m, Some ob =>
       let g21 := closel (ao_spike m) (a_spike ob) in
       let g22 := closel (ao_tamps m) (a_tamps ob) && nan_iff_empty_b ai (map is_finite (a_tamps ob)) in
       let g23 := close3 (ao_phys m) (a_phys ob) && peak_rel_b ai ob in
-      flag 1 (g21 && g22 && g23) ++ flag 21 g21 ++ flag 22 g22 ++ flag 23 g23
+      flag 1 (g21 && g22 && g23 && gn) ++ flag 21 g21 ++ flag 22 g22 ++ flag 23 g23
   | Some _, None => [1; 20; 21; 22; 23]
   | None, _ => [3]
   end.
